@@ -46,7 +46,8 @@ def run(tier, seed):
         return add_empty_cycle(old(rng, tier_, **kw))
     seq.gen_script = gen
     try:
-        return seq.run_seq_property(res, "c11", CATS, 40, 300, gen_kwargs=GEN, use_oracle=False, extra_check=balance_check)
+        return seq.run_seq_property(res, "c11", CATS, 40, 300, gen_kwargs=GEN, use_oracle=False, extra_check=balance_check,
+                                    extra_scripts=seq.gen_gc_scripts)
     finally:
         seq.gen_script = old
 
